@@ -1,0 +1,94 @@
+//go:build verif
+
+// Contracts for the deductive verification machinery in /verif (comment-only; compiled only with -tags=verif).
+package dataset
+
+// ---------------------------------------------------------------------------
+// C12: deduplicating compaction. The strategy remembers the last version it KEPT; a version is deleted iff it is
+// equal to that one; a deleted latest version repoints the latest pointer to the kept one.
+
+//@ assumed server.IsEntityEqual
+//@   pure
+//@ assumed dataset.findRefs
+//@   pure
+//@ assumed dataset.processRefs
+//@   pure
+//@ assumed dataset.mkLatestKey
+//@   pure
+//@ assumed bytes.Equal
+//@   pure
+//@ assumed reflect.DeepEqual
+//@   pure
+
+//@ unit (*deduplicationStrategy).eval
+//@   prop C12
+//@   ghost equalG bool = false
+//@   requires d != nil && e != nil && d.changeBuffer != nil && d.counts != nil
+//@   requires !isFirstVersion ==> d.prev != nil
+//@   ensures [first-version-is-kept-and-remembered] isFirstVersion ==> ret0 == nil && ret1 == nil && d.prev == e && d.prevJsonKey == jsonKey && d.prevEntityBytes == entityBytes
+//@   ensures [kept-version-becomes-the-comparison-base] ret1 == nil && !isFirstVersion && !equalG ==> d.prev == e && d.prevJsonKey == jsonKey && d.prevEntityBytes == entityBytes
+//@   ensures [deleted-version-leaves-the-comparison-base] ret1 == nil && !isFirstVersion && equalG ==> d.prev == old(d.prev) && d.prevJsonKey == old(d.prevJsonKey) && d.prevEntityBytes == old(d.prevEntityBytes)
+//@   ensures [version-deleted-iff-equal-to-the-last-kept-one] ret1 == nil && !isFirstVersion && equalG ==> ret0 != nil && len(ret0.DeleteKeys) >= 1 && ret0.DeleteKeys[0] == jsonKey
+//@   ensures [latest-pointer-repointed-to-the-kept-version] ret1 == nil && !isFirstVersion && equalG && isLatestVersion ==> len(ret0.RewriteKeys) == 1 && len(ret0.RewriteValues) == 1 && ret0.RewriteValues[0] == old(d.prevJsonKey)
+//@   ensures [no-rewrite-for-kept-versions] ret1 == nil && ret0 != nil && !equalG ==> len(ret0.RewriteKeys) == 0
+//@   at call IsEntityEqual#1
+//@     ghost equalG := $result
+//@   loop 1
+//@     invariant d.prev == old(d.prev) && d.prevJsonKey == old(d.prevJsonKey) && d.prevEntityBytes == old(d.prevEntityBytes) && len(rewriteKeys) == 0 && !equalG
+
+// every version of an entity is evaluated exactly once, oldest first, one step behind the iterator; only the first
+// evaluation says isFirst, only the one after the loop says isLast
+//@ assumed store.SeekEntityChanges
+//@   pure
+//@   ensures len(result) == 14
+
+// the per-version callback (strategy evaluation and batched flush) does not touch forEntity's iterator or loop variables
+//@ assumed (*CompactionWorker).forEntity$1
+//@   pure
+
+//@ unit (*CompactionWorker).forEntity
+//@   prop C12
+//@   ghost evalsG int = 0
+//@   ghost capturedG int = 0
+//@   ghost pendingKeyG slice
+//@   ghost pendingBytesG slice
+//@   requires c != nil && ops != nil
+//@   at call KeyCopy#1
+//@     ghost pendingKeyG := $result
+//@     ghost capturedG := capturedG + 1
+//@   at call ValueCopy#1
+//@     assume $result1 == nil ==> !isnil($result0)
+//@     ghost pendingBytesG := $result0
+//@   at call forEntity$1#1 before
+//@     assert [C12:versions-evaluated-in-order-one-behind-the-iterator] $arg1 == pendingKeyG && $arg0 == pendingBytesG && evalsG == capturedG - 1
+//@     assert [C12:only-the-first-evaluation-is-marked-first] $arg2 == (evalsG == 0)
+//@     assert [C12:evaluations-inside-the-loop-are-not-last] !$arg3
+//@     ghost evalsG := evalsG + 1
+//@   at call forEntity$1#2 before
+//@     assert [C12:last-version-evaluated-after-the-loop-and-marked-last] $arg3 && (capturedG > 0 ==> $arg1 == pendingKeyG && $arg0 == pendingBytesG && evalsG == capturedG - 1)
+//@     assert [C12:only-the-first-evaluation-is-marked-first] $arg2 == (evalsG == 0)
+//@   loop 1
+//@     invariant evalsG >= 0 && capturedG >= 0 && (capturedG == 0 ==> evalsG == 0 && isnil(jsonBytes)) && (capturedG > 0 ==> evalsG == capturedG - 1 && !isnil(jsonBytes))
+//@     invariant isFirstChange <==> evalsG == 0
+//@     invariant capturedG > 0 ==> jsonKey == pendingKeyG && jsonBytes == pendingBytesG
+
+// a flush applies the collected deletes and the latest-pointer rewrites in one badger transaction
+//@ assumed (dataset.CompactionStrategy).flush
+//@   pure
+//@ assumed (dataset.CompactionStrategy).flushThreshold
+//@   pure
+//@ assumed (dataset.CompactionStrategy).stats
+//@   pure
+//@ assumed (store.BadgerStore).GetDB
+//@   pure
+
+//@ unit dataset.flushDeletes
+//@   prop C12
+//@   requires ops != nil && len(ops.RewriteKeys) == len(ops.RewriteValues)
+//@   at $1 call Delete#1 before
+//@     assert [C12:deletes-go-through-the-flush-transaction] $arg0 == txn
+//@   at $1 call Set#1 before
+//@     assert [C12:latest-pointer-rewritten-in-the-same-transaction-as-the-deletes] $arg0 == txn && key == ops.RewriteKeys[i] && val == ops.RewriteValues[i]
+//@     assert [C12:latest-pointer-rewritten-while-writers-are-excluded] exists l int :: has($held, l) && kindOf(l) == lockKind("server.Dataset", "WriteLock")
+//@   loop $1:2
+//@     invariant -1 <= $i && $i < len(ops.RewriteKeys) && len(ops.RewriteKeys) == len(ops.RewriteValues)
